@@ -29,7 +29,7 @@ type Frame struct {
 }
 
 type fnInfo struct {
-	idx map[ssa.Value]int
+	idx map[uintptr]int
 	n   int
 }
 
